@@ -46,8 +46,8 @@ pub fn parse_repeated_field<T: crate::traits::SwiftField>(
     tag: &str,
 ) -> Result<Option<Vec<T>>, ParseError> {
     let mut fields = Vec::new();
-    while let Ok(field) = parser.parse_field::<T>(tag) {
-        fields.push(field);
+    while parser.detect_field(tag) {
+        fields.push(parser.parse_field::<T>(tag)?);
     }
     Ok(if fields.is_empty() {
         None
